@@ -206,6 +206,9 @@ def ownRequired (fs : List FieldSpec) : List String :=
 def unmapped (fs : List FieldSpec) : List FieldSpec :=
   fs.map fun f => { f with serKey := f.name, camelKey := f.camelName }
 
+/-- `AllFieldsRequired`: no field stays optional -/
+def deopt (fs : List FieldSpec) : List FieldSpec := fs.map fun f => { f with optional := false }
+
 /-- what a definition reads of its parent class: how it derives from it, the parent's
     definition-time core and the parent's LIVE `_required` list -/
 abbrev PInfo := Parent × Core × List String
@@ -228,8 +231,9 @@ def inheritInfo (parent : Option PInfo) (own : List FieldSpec) : List FieldSpec 
         (fun n => !hasDefaultIn (unmapped (pc.fields.filter fun f => ns.contains f.name) ++ own) n) ++ ownRequired own)
   | some (.partialOf _, pc, _) =>
     (unmapped pc.fields ++ own, ownRequired own)
-  | some (.allRequired _, pc, _) =>     -- every field without a default; the source's `_required` is not read
-    (unmapped pc.fields ++ own, ownRequired pc.fields ++ ownRequired own)
+  | some (.allRequired _, pc, _) =>     -- every field without a default (an `_optional` one too); the source's
+                                        -- `_required` is not read
+    (deopt (unmapped pc.fields) ++ own, ownRequired (deopt pc.fields) ++ ownRequired own)
 
 /-- `getattr(cls, "_additionalProperties")` of the new class: its own setting, else what it inherits -/
 def addPropsAttrOf (own : Option Bool) (parent : Option PInfo) : Option Bool :=
@@ -269,15 +273,11 @@ def lookupParent (classes : List (ClassId × Entry)) : Option Parent → Option 
     | some e => some (some (p, e.core, e.required))
     | none => none
 
-/-- `get_base_info` re-reads the base's additional-properties setting with the CURRENT global default
-    and drops the base's `**kwargs` parameter accordingly; when that reading disagrees with the
-    base's frozen signature the class statement raises (KeyError 'kwargs', or ValueError
-    "duplicate parameter name: 'kwargs'" when the new class takes `**kwargs` itself) -/
-def baseSigClash (flags : Flags) (src : ClassSrc) : Option PInfo → Bool
-  | some (.inherit _, pc, _) =>
-    if pc.kwargs then !(pc.src.addProps.getD flags.addProps) && src.addProps.getD flags.addProps
-    else pc.src.addProps.getD flags.addProps
-  | _ => false
+/-- until /repo 5f45702 `get_base_info` re-read the base's additional-properties setting with the CURRENT global
+    default and dropped the base's `**kwargs` parameter accordingly; when that reading disagreed with the base's
+    frozen signature the class statement raised (KeyError 'kwargs' / "duplicate parameter name").  Since 5f45702 the
+    base's `**kwargs` parameter is always dropped and the class statement never raises for this reason. -/
+def baseSigClash (_flags : Flags) (_src : ClassSrc) : Option PInfo → Bool := fun _ => false
 
 def totalInlines (fs : List FieldSpec) : Nat := (fs.map (·.inlines)).sum
 
@@ -293,7 +293,8 @@ def elabClass (cfg : Config) (w : World) (src : ClassSrc) (pe : Option PInfo) : 
   let info := inheritInfo pe own
   { core := { src := src, defFlags := w.flags, fields := info.1,
               sigRequired := (fnames info.1).filter fun n => info.2.contains n,
-              kwargs := src.addProps.getD w.flags.addProps,
+              -- `getattr(clsobj, "_additionalProperties", default)`: own or INHERITED setting (since /repo 5f45702)
+              kwargs := (addPropsAttrOf src.addProps pe).getD w.flags.addProps,
               addPropsAttr := addPropsAttrOf src.addProps pe,
               simple := info.1.all (·.trustedOk),
               ancestors := ancestorsOf pe },
@@ -726,13 +727,18 @@ instance (W : List (String × TypeId)) : Decidable (NoClashW W) := by unfold NoC
 def hasRef (e : Entry) : Bool :=
   e.core.fields.any fun f => match f.kind with | .ref _ => true | .refs _ => true | _ => false
 
-/-- a step is quiet when `structure_to_schema` does not change `cls._required` (and, because the
-    model does not follow ClassReference fields into the referenced classes' `_required`, is not
-    applied to a class with such fields while the in-place write exists).  Every step is quiet when
-    `cfg.schemaWritesRequired` is off, which is the case for the current tree. -/
+/-- every class the fields of `e` refer to (directly or through `Array[...]`) is a FastSerializable class whose
+    own serializer can be generated (`fieldFast`, resolved at definition) -/
 def refsCreatable (e : Entry) : Bool :=
   e.core.fields.all fun f => match f.kind with | .ref _ => f.fastOk | _ => true
 
+/-- a step is quiet when (1) `structure_to_schema` does not change `cls._required` (and, because the model does
+    not follow ClassReference fields into the referenced classes' `_required`, is not applied to a class with such
+    fields while the in-place write exists) — always the case when `cfg.schemaWritesRequired` is off, as for the
+    current tree — and (2) it stays outside the region of the open finding about serializers resolved through the
+    MRO: no FastSerializable class is defined that refers to a class whose serializer cannot be generated, and
+    `create_serializer` is not called explicitly on a class with such a reference.  Inside that region the model
+    follows the real code one level deep only (`verifyFields`). -/
 def quietStep (cfg : Config) (w : World) : WorldOp → Bool
   | .define c src =>       -- known finding (mro-resolved-serialize-skips-generation): a FastSerializable class may refer only
                            -- to FastSerializable classes whose serializer can be generated
